@@ -67,14 +67,14 @@ pub fn run(ctx: &'static Ctx) {
     bfs(ctx, space(ctx, &VALUES, if ctx.quick() { 2 } else { 3 }, "bfs-full-alphabet"));
     if ctx.thorough() { bfs(ctx, space(ctx, &[0, 0x7fff_ffff], 5, "bfs-extremes-deep")); }
     // lines: long paths of 0' with at most d deviating components
-    let (maxd, dev) = if ctx.quick() { (8usize, 1usize) } else { (12, 2) };
+    let (maxd, dev) = if ctx.quick() { (16usize, 1usize) } else { (24, 2) };
     let sp = space(ctx, &VALUES, maxd, "lines");
     let syms: Vec<u32> = VALUES.iter().flat_map(|v| [*v, *v | HARD]).filter(|v| *v != HARD).collect();
     let mut cases: Vec<(u8, Vec<u32>)> = Vec::new();
     for s in 0..sp.seeds.len() as u8 { for d in 1..=maxd {
         cases.push((s, vec![HARD; d]));
         for p in 0..d { for a in &syms { let mut v = vec![HARD; d]; v[p] = *a; cases.push((s, v.clone()));
-            if dev >= 2 && s == 2 { for q in p + 1..d { for b in &syms { let mut w = v.clone(); w[q] = *b; cases.push((s, w)); } } } } }
+            if dev >= 2 && s == 2 && d <= 12 { for q in p + 1..d { for b in &syms { let mut w = v.clone(); w[q] = *b; cases.push((s, w)); } } } } }
     } }
     ctx.sweep("lines", &format!("paths of 0' of every depth 1..={maxd} with <= {dev} deviating components (13 alternatives each), 5 seeds (pairs on the 64-byte seed)"), cases.len() as u64, |i| {
         let (s, path) = &cases[i as usize]; check_path(ctx, &sp, "lines", i, *s, path);
